@@ -469,7 +469,11 @@ def run_program(prog, mode="do", collect=False):
     tr = Trace()
     tr.firstdone = {}
     ctx = Ctx(tr)
-    doist = TDoist(tock=prog["tock"], tyme=prog.get("tyme", 0.0), real=False)
+    # the start tyme reaches the scheduler either through the constructor or - on a scheduler constructed at another
+    # tyme, e.g. a reused one - through the tyme parameter of do() / ado()
+    via_arg = prog.get("ctor_tyme") is not None
+    doist = TDoist(tock=prog["tock"], tyme=(prog["ctor_tyme"] if via_arg else prog.get("tyme", 0.0)), real=False)
+    runkw = {"tyme": prog.get("tyme", 0.0)} if via_arg else {}
     tr.doist = doist
     ctx.doist = doist
     counter = [0]
@@ -482,9 +486,9 @@ def run_program(prog, mode="do", collect=False):
     limit = prog.get("limit")
     try:
         if mode == "do":
-            doist.do(doers=doers, limit=limit)
+            doist.do(doers=doers, limit=limit, **runkw)
         else:
-            asyncio.run(doist.ado(doers=doers, limit=limit))
+            asyncio.run(doist.ado(doers=doers, limit=limit, **runkw))
         tr.returned = len(tr.ev)
     except BaseException as ex:   # noqa: BLE001 - classified below, unknown ones re-raised
         # mark the return point while the exception (and the frames it references) is still alive:
